@@ -172,6 +172,14 @@ def probe():
             check(f"fast_iterator, closed early [{tag}]", partial)
         finally:
             sys.settrace(None)
+        # a case iterator abandoned while suspended inside a traced run (what `deal test` does when a case fails) and finalised afterwards
+        def abandoned():
+            import gc
+            def consumer():
+                it = fast_iterator([1, 2, 3]); next(it); return it
+            res = trace(consumer)
+            del res; gc.collect()
+        check(f"fast_iterator abandoned inside trace() [{tag}]", abandoned)
         # memory tracking
         from deal._mem_test import MemoryTracker
         def tracked(raises):
